@@ -455,6 +455,7 @@ class CarbonClientFactory(with_metaclass(PluginRegistrar, ReconnectingClientFact
       for metric, datapoint in metrics:
           state.events.metricGenerated(metric, datapoint)
       self.queue.clear()
+      self.checkQueueSpace()
 
   def disconnect(self):
     self.queueEmpty.addCallbacks(lambda result: self.stopConnecting(), log.err)
